@@ -2,18 +2,25 @@ package main
 
 import (
 	"fmt"
-	"time"
+
+	"github.com/gopacket/gopacket"
+	"github.com/gopacket/gopacket/layers"
 
 	"verif/engine/dspace"
 )
 
 func main() {
-	t := time.Now()
 	sp := dspace.Build(false)
-	fmt.Println(time.Since(t), len(sp.TSeeds), len(sp.Natural), sp.NeighLen())
-	n := map[string]int{}
-	for _, s := range sp.TSeeds {
-		n[s.First.Name]++
+	fmt.Println("tseeds", len(sp.TSeeds), "neigh", sp.NeighLen())
+	for _, t := range sp.TSeeds {
+		p := gopacket.NewPacket(t.Data, t.First.Dec, gopacket.Default)
+		if l := p.Layer(layers.LayerTypeRADIUS); l != nil {
+			r := l.(*layers.RADIUS)
+			var ts []int
+			for _, a := range r.Attributes {
+				ts = append(ts, int(a.Type))
+			}
+			fmt.Println(t.Name, t.First.Name, ts)
+		}
 	}
-	fmt.Println(len(n), "types with seeds")
 }
